@@ -6,7 +6,7 @@ TRUSTED_BASE = [
     "Coq 8.16.1 kernel (coqc; coqchk in the thorough tier); vm_compute used only in non-vacuity Examples; no native_compute",
     "hand-written model coq/Model/Queries.v of conn.go Seek/ReadOffsets/readOffset/ReadPartitions, protocol/listoffsets Split/Merge, listoffset.go, offsetfetch.go, offsetcommit.go, metadata.go, client.go ConsumerOffsets; tied by the differential run of harness/cmd/c19 (real code, build tag verif, exported API only: no hook file) against the OCaml extraction (ExtrOcamlBasic only)",
     "harness/cmd/c19 fakeRT.RoundTrip replays transport.go (*connPool).roundTrip's Splitter path by hand (Split, one round trip per message routed by (*Request).Broker, results joined in order as in joined.await, Merge); the pooled Transport itself is exercised only by the end-to-end family (harness/cmd/c19/e2e.go: Client.ListOffsets/OffsetFetch/OffsetCommit through the real kafka.Transport against a wire-level multi-broker fake with broker ids from 0 and the bootstrap address on a non-zero broker, every broker answering only for the partitions it leads / groups it coordinates); connection faults, metadata refresh and retries are C12's",
-    "the wire-level peer uses /repo/protocol's own ReadRequest/WriteResponse (list offsets v1, metadata v1/v6, ApiVersions v0) to talk to the legacy Conn decoders: a symmetric encode/decode defect of both would go unnoticed here (C04 covers the codecs)",
+    "the version sweep decodes REQUESTS with /repo/protocol's ReadRequest but lays RESPONSES out by hand (transcribed from the Kafka protocol guide, trusted); elsewhere the wire-level peer uses /repo/protocol's own ReadRequest/WriteResponse (list offsets v1, metadata v1/v6, ApiVersions v0) to talk to the legacy Conn decoders: a symmetric encode/decode defect of both would go unnoticed here (C04 covers the codecs)",
     "sort.Slice in Merge is not stable: merged partitions are compared after a total re-sort and a separate 'sorted by (partition, offset)' flag; Offsets-map entries written twice with different times are compared as '*'",
     "ocaml/kvio.ml.in + ocaml/c19_driver.ml (hex interchange and formatting, ~230 lines) and harness/kvfmt; the Python predicates below (independent re-statement of the property on the implementation's output)",
     "timestamps are int64 milliseconds end to end; time.Time conversion (timestamp/makeTime) is observed through Unix milliseconds only",
@@ -432,6 +432,11 @@ def correspondence(ctx):
             failures.append(dict(layer="correspondence", what=f"end-to-end ListOffsets with a {kind} sub-request next to a healthy one was not run", detail="", input=None))
     if not any(c["op"] == "lo" and {"e2e", "all-failed"} <= set(c["feats"].split(",")) for c in cases):
         failures.append(dict(layer="correspondence", what="end-to-end ListOffsets with every sub-request failing was not run", detail="", input=None))
+    # version sweep: every registered version of the four query APIs (and ConsumerOffsets over every OffsetFetch version)
+    for api, lo_v, hi_v in (("of", 0, 5), ("lo", 1, 5), ("md", 0, 8), ("oc", 0, 7), ("co", 0, 5)):
+        for v in range(lo_v, hi_v + 1):
+            if not any(c["op"] == api and {"ver-sweep", "v=%d" % v} <= set(c["feats"].split(",")) for c in cases):
+                failures.append(dict(layer="correspondence", what=f"version sweep: {api} at version {v} was not run through the real Transport", detail="", input=None))
     # every stateful Client query must have met every address configuration
     for api in ("ListOffsets", "Metadata", "OffsetFetch", "OffsetCommit", "ConsumerOffsets"):
         for cfg in ("addr=client-only", "addr=request-only", "addr=both-same", "addr=both-different", "addr=neither"):
@@ -450,7 +455,7 @@ def correspondence(ctx):
                      "sub-results = faithful answers (error codes, returned timestamps, tied offsets), failures (none/some/all), adversarial responses (other topics/partitions, empty arrays), "
                      "and Merge on requests not produced by Split incl. fewer/more results than requests. Tier 2: Client.ListOffsets/OffsetFetch/OffsetCommit/ConsumerOffsets/Metadata through a fake RoundTripper "
                      "over generated clusters (1-5 brokers some unreachable, 1-5 topics, 1-6 partitions with log start/end, timestamp index, leader, epoch, per-partition errors, committed offsets per group, commit/fetch errors, "
-                     "unknown topics/partitions, duplicate node ids, unknown/-1 leaders). Tier 2b: two fake clusters with the same topics but different leaders, offsets and committed positions behind one RoundTripper keyed by address; ListOffsets/Metadata/OffsetFetch/OffsetCommit/ConsumerOffsets and 27 other Client methods in the address configurations {client Addr only, request Addr only, both same, both different, neither}: who was asked and whose state came back. Tier 2c (end to end): the same three Client queries through the real Transport against 2-4 wire-level brokers (ids from 0, bootstrap never broker 0), expected outcomes = the owners' answers; plus multi-partition ListOffsets with transport-level faults per sub-request (leader's dial refused, connection dropped on the request, leader id absent from the broker list, partition absent from the metadata; one, several, all): expectation = the model's Merge over the positionally aligned outcomes (healthy partitions report the owners' offsets, the faulty ones carry an error, the call fails only when every sub-request failed). Tier 3: Conn.Seek histories of 1..6 steps (all whence values, SeekDontCheck, invalid whence, moving log bounds, boundary and +-1 offsets, "
+                     "unknown topics/partitions, duplicate node ids, unknown/-1 leaders). Tier 2b: two fake clusters with the same topics but different leaders, offsets and committed positions behind one RoundTripper keyed by address; ListOffsets/Metadata/OffsetFetch/OffsetCommit/ConsumerOffsets and 27 other Client methods in the address configurations {client Addr only, request Addr only, both same, both different, neither}: who was asked and whose state came back. Tier 2c (end to end): the same three Client queries through the real Transport against 2-4 wire-level brokers (ids from 0, bootstrap never broker 0), expected outcomes = the owners' answers; plus multi-partition ListOffsets with transport-level faults per sub-request (leader's dial refused, connection dropped on the request, leader id absent from the broker list, partition absent from the metadata; one, several, all): expectation = the model's Merge over the positionally aligned outcomes (healthy partitions report the owners' offsets, the faulty ones carry an error, the call fails only when every sub-request failed). Version sweep (harness/cmd/c19/versions.go): the fake brokers' ApiVersions answer pins the highest version of one API, so the library negotiates exactly v: OffsetFetch v0-v5 (+ ConsumerOffsets), ListOffsets v1-v5, Metadata v0-v8, OffsetCommit v0-v7 through the real Transport; the responses are laid out by hand from the Kafka protocol guide per version (throttle_time_ms, top-level error_code, leader epochs, rack, cluster_id, controller_id, is_internal, offline replicas, authorized operations from the version that introduced them; none of these versions is flexible), the expected result is what a broker of that version conveys, the brokers check that the version they saw is the pinned one. Tier 3: Conn.Seek histories of 1..6 steps (all whence values, SeekDontCheck, invalid whence, moving log bounds, boundary and +-1 offsets, "
                      "int64 extremes, broker errors on the first/second request) plus regression cases (SeekCurrent from the FirstOffset/LastOffset placeholders, leaderless partition in ReadPartitions), ReadFirstOffset/ReadLastOffset/ReadOffset and ReadPartitions (metadata v1 and v6) against a wire-level peer over net.Pipe; ReadPartitions argument shapes {no argument, nil slice, empty non-nil slice (literal, empty config, l[:0]), one topic, several, duplicates} x Conn {with, without topic} x metadata {v1, v6} against a peer that holds a cluster and answers according to the topic array decoded by hand from the raw request frame (null = all topics, empty = none, list = those). "
                      "A case is non-trivial when its feature vector is not a happy-path default (single faithful answer, no failure, plain whence); distinct by hash of op+args",
                 samples=[c["line"][:300] + " | " + c["go"][:120] for c in cases[:2] + cases[len(cases)//3:len(cases)//3+2] + cases[2*len(cases)//3:2*len(cases)//3+2] + cases[-2:]],
